@@ -14,7 +14,7 @@ RULE = ("explicit order: 6 orders x separators '-', '/', '.', ' ' x (y,m,d) with
         "regional locales with discriminating dates (d<=12, m<=12, m!=d), 3 separators, PREFER_LOCALE_DATE_ORDER on/off; "
         "after each locale, calls that enter its parsers with nothing to parse (own skip words, blank, impossible date; no explicit "
         "order) followed by fresh order-less-locale (tl) reads; oracle = field copy, locale order read from the merged locale info as data (MDY when absent/off). Tripwire: "
-        "Settings.DATE_ORDER on exit of _try_parser equals its value on entry. non-trivial distinct = distinct "
+        "Settings.DATE_ORDER left rewritten on exit of _try_parser triggers an immediate fresh read of the order-less locale. non-trivial distinct = distinct "
         "(language/locale, order, string) accepted by the absolute-time parser (path tap).")
 ASSUMPTIONS = ["only strings whose reading under the supplied order is a valid date are generated"]
 TIMEOUT = {"quick": 600, "thorough": 3600}
@@ -40,16 +40,47 @@ def install_tripwire(ctx):
     def after(token, args, kwargs, result, exc):
         now = args[0]._settings.DATE_ORDER
         if now != token:
-            ctx.violation({"kind": "tripwire", "locale": args[0].locale.shortname, "string": args[0].date_string},
-                          now, token, "date-order-not-restored", {"exc": type(exc).__name__ if exc else None})
+            # not a verdict by itself (the settings object might be private to the call in another design): it triggers
+            # an immediate read of the order-less locale through fresh parsers, where a leaked order is observable
+            ctx.count("tripwire:DATE_ORDER-left-rewritten")
+            _TRIP.append((args[0].locale.shortname, args[0].date_string))
 
     wrap("dateparser.date", "_DateLocaleParser._try_parser", before, after, name="post:_try_parser restores DATE_ORDER")
 
 
-def reads_as_offset(s):
-    from dateparser.timezone_parser import pop_tz_offset_from_string
+_TRIP = []
 
-    return pop_tz_offset_from_string(s)[1] is not None
+
+def probe_after_trip(ctx):
+    if not _TRIP:
+        return
+    loc, s = _TRIP[0]
+    del _TRIP[:]
+    for pl in (True, False):
+        check_locale(ctx, {"kind": "locale", "lang": "tl", "loc": "tl", "pl": pl, "y": 2015, "m": 2, "d": 3, "sep": "/",
+                           "fresh": True, "after": loc})
+        ctx.count("tripwire_probes")
+
+
+_OFFSETS = None
+
+
+def reads_as_offset(s):
+    """Does the tail of the string spell one of the UTC offsets of the library's table (read as data)?  Decides only
+    which known-finding a deviation belongs to."""
+    global _OFFSETS
+    import re
+
+    if _OFFSETS is None:
+        from dateparser.timezones import timezone_info_list
+
+        _OFFSETS = set()
+        for pat, off in timezone_info_list[0]["timezones"]:
+            m = re.match(r"UTC\\([+-])(\d\d):(\d\d)", pat)
+            if m:
+                _OFFSETS.add(m.group(1) + m.group(2) + m.group(3))
+    m = re.search(r"([+-]\d{4})$", s)
+    return bool(m and m.group(1) in _OFFSETS)
 
 
 def render(o, y, m, d, sep, pad):
@@ -84,7 +115,7 @@ def check_explicit(ctx, c):
     except Exception as e:
         r = e
     ctx.ran()
-    path = PathTap.accepted()
+    path = PathTap.accepted("absolute-time")
     if r != exp:
         ctx.violation(dict(c, string=s), r, exp, "explicit-order",
                       {"sep": sep, "year_last": o.endswith("Y"), "suffix": bool(tsuf), "lang": lang,
@@ -95,6 +126,7 @@ def check_explicit(ctx, c):
         ctx.count("off_path:%s" % path)
         return
     ctx.count("on_path:absolute-time")
+    probe_after_trip(ctx)
     ctx.nontrivial("explicit", lang, o, s, pl)
     ctx.sample({"string": s, "DATE_ORDER": o, "language": lang, "result": iso(r)}, limit=2)
 
@@ -147,7 +179,7 @@ def check_locale(ctx, c):
         r = e
     ctx.ran()
     exp = datetime(y, m, d)
-    path = PathTap.accepted()
+    path = PathTap.accepted("absolute-time")
     if r != exp:
         ctx.violation(dict(c, string=s, locale_order=lo), r, exp, "locale-order",
                       {"locale": loc, "locale_order": lo, "pl": pl, "sep": sep, "path": path,
@@ -213,6 +245,7 @@ def run_shard(ctx, desc):
                         for sep in ("-", "/", "."):
                             check_locale(ctx, {"kind": "locale", "lang": lang, "loc": loc, "pl": pl, "y": y, "m": m, "d": d, "sep": sep})
                 disturb(ctx, lang, loc)
+                probe_after_trip(ctx)
             ctx.sample({"locales_walked": [l for _, l in locs[:8]], "n": len(locs)})
         ctx.reask()
     finally:
